@@ -224,7 +224,10 @@ def compare(ctx: Ctx, rows: dict, cases: list) -> None:
                 if not found:
                     groups[("C03.3/emem-reg", c.opcode, f"render shows [{reg}{sign}n] but the IL has no address {reg}{sign}<that byte>")].append(c)
             # step == access width
-            widths = {t.args[0] for st in il for t in ilfacts.walk(st) if t.ctor in ("load", "store") and isinstance(t.args[0], int)}
+            # data accesses only: a load that sits inside the *address* of another access (the BP/PX/PY byte read while forming an
+            # internal-memory address) is not an operand access and says nothing about the operand width
+            addr_part = {id(x) for st in il for t in ilfacts.walk(st) if t.ctor in ("load", "store") and isinstance(t.args[1], Term) for x in ilfacts.walk(t.args[1])}
+            widths = {t.args[0] for st in il for t in ilfacts.walk(st) if t.ctor in ("load", "store") and isinstance(t.args[0], int) and id(t) not in addr_part}
             steps = {BitVec.lift(s).value() for s in incs + decs if s is not None and BitVec.lift(s).is_const()}
             if steps and not counted and not steps <= widths:
                 groups[("C03.3/step-width", c.opcode, f"pointer step {sorted(steps)} differs from the access width {sorted(widths)}")].append(c)
